@@ -67,6 +67,13 @@ class NixExpression:
         """Copy nodes to enable immutable-style edits during transforms."""
         if not update:
             return copy(self)
+        # replace() re-runs __post_init__ on the copy, which re-points `scope.owner` and
+        # rebinds `scope_state.stack`: give the copy its own containers so that the
+        # original expression is left untouched.
+        if "scope" not in update:
+            update = {**update, "scope": Scope(self.scope)}
+        if "scope_state" not in update:
+            update = {**update, "scope_state": copy(self.scope_state)}
         return replace(self, **update)
 
     @classmethod
